@@ -63,9 +63,9 @@ fn backend<B: Backend, P: Prims>(opts: &Opts, rep: &mut Report) {
 
     for &kind in WKS {
         let n = match (kind, B::VER) {
-            (Wk::Seal, 1) => opts.size(60, 1500),
-            (k, _) if k.is_pw() => opts.size(250, 6000),
-            _ => opts.size(800, 20000),
+            (Wk::Seal, 1) => opts.size(200, 3000),
+            (k, _) if k.is_pw() => opts.size(800, 12000),
+            _ => opts.size(4000, 60000),
         };
         for i in 0..n {
             idx += 1;
